@@ -85,6 +85,12 @@ func namesV1(m map[string]*string) map[string]string {
 	return out
 }
 
+// PlainErrors makes injected failures surface as plain Go errors (a timeout or connection error from
+// a custom or wrapping client) instead of typed service errors. Set per run by the engine.
+var PlainErrors bool
+
+var errPlain = errors.New("Post \"https://dynamodb.us-west-2.amazonaws.com/\": net/http: request canceled (Client.Timeout exceeded while awaiting headers)")
+
 func v1err(err error) error {
 	switch {
 	case err == nil:
@@ -92,6 +98,9 @@ func v1err(err error) error {
 	case errors.Is(err, ErrConditional):
 		return awserr.New(ddbv1.ErrCodeConditionalCheckFailedException, "The conditional request failed", nil)
 	case errors.Is(err, ErrInjected):
+		if PlainErrors {
+			return errPlain
+		}
 		return awserr.New(ddbv1.ErrCodeProvisionedThroughputExceededException, "injected", err)
 	}
 	var he HarnessError
@@ -125,11 +134,18 @@ func (c V1) QueryWithContext(_ awsv1.Context, in *ddbv1.QueryInput, _ ...request
 	if in.ScanIndexForward != nil {
 		forward = *in.ScanIndexForward
 	}
-	items, err := c.D.Query(awsv1.StringValue(in.TableName), awsv1.StringValue(in.KeyConditionExpression), namesV1(in.ExpressionAttributeNames), vals, awsv1.BoolValue(in.ConsistentRead), forward, int(awsv1.Int64Value(in.Limit)), awsv1.StringValue(in.ProjectionExpression))
+	var start Item
+	if len(in.ExclusiveStartKey) > 0 {
+		start = itemFromV1(in.ExclusiveStartKey)
+	}
+	items, last, err := c.D.Query(awsv1.StringValue(in.TableName), awsv1.StringValue(in.KeyConditionExpression), namesV1(in.ExpressionAttributeNames), vals, awsv1.BoolValue(in.ConsistentRead), forward, int(awsv1.Int64Value(in.Limit)), awsv1.StringValue(in.ProjectionExpression), start)
 	if err != nil {
 		return nil, v1err(err)
 	}
 	out := &ddbv1.QueryOutput{}
+	if last != nil {
+		out.LastEvaluatedKey = itemToV1(last)
+	}
 	for _, it := range items {
 		out.Items = append(out.Items, itemToV1(it))
 	}
@@ -210,6 +226,9 @@ func v2err(err error) error {
 	case errors.Is(err, ErrConditional):
 		return &typesv2.ConditionalCheckFailedException{Message: awsv2.String("The conditional request failed")}
 	case errors.Is(err, ErrInjected):
+		if PlainErrors {
+			return errPlain
+		}
 		return &typesv2.ProvisionedThroughputExceededException{Message: awsv2.String("injected")}
 	}
 	var he HarnessError
@@ -245,11 +264,18 @@ func (c V2) Query(_ context.Context, in *ddbv2.QueryInput, _ ...func(*ddbv2.Opti
 	if in.ScanIndexForward != nil {
 		forward = *in.ScanIndexForward
 	}
-	items, err := c.D.Query(awsv2.ToString(in.TableName), awsv2.ToString(in.KeyConditionExpression), in.ExpressionAttributeNames, vals, awsv2.ToBool(in.ConsistentRead), forward, int(awsv2.ToInt32(in.Limit)), awsv2.ToString(in.ProjectionExpression))
+	var start Item
+	if len(in.ExclusiveStartKey) > 0 {
+		start = itemFromV2(in.ExclusiveStartKey)
+	}
+	items, last, err := c.D.Query(awsv2.ToString(in.TableName), awsv2.ToString(in.KeyConditionExpression), in.ExpressionAttributeNames, vals, awsv2.ToBool(in.ConsistentRead), forward, int(awsv2.ToInt32(in.Limit)), awsv2.ToString(in.ProjectionExpression), start)
 	if err != nil {
 		return nil, v2err(err)
 	}
 	out := &ddbv2.QueryOutput{}
+	if last != nil {
+		out.LastEvaluatedKey = itemToV2(last)
+	}
 	for _, it := range items {
 		out.Items = append(out.Items, itemToV2(it))
 	}
